@@ -624,6 +624,53 @@ func runExp(m *model.Model, s *ob.Set) {
 			}
 		}
 	}
+	// (iv) the clamp applied to caller-supplied exponent offsets (SetMantExp, SetBitsExp,
+	// NewDecimal): the offset is added to summands of magnitude below 2^33 (an int32 exponent,
+	// a mantissa length in digits, a normalisation shift) before the [MinExp, MaxExp] test. The
+	// clamp must be wide enough that a clamped offset still lands outside the range whatever
+	// the other summands are (limit - 2^33 > 2^31, i.e. limit >= 2^34: an offset of 2^32 can
+	// legitimately bring an exponent from MinExp to MaxExp), and narrow enough that the int64 sum
+	// cannot wrap (limit + 2^33 < 2^63, i.e. limit <= 2^62).
+	if le := m.TryLookup("limitExp"); le != nil && len(le.Params) == 1 {
+		lo := constant.Shift(constant.MakeInt64(1), token.SHL, 34)
+		hi := constant.Shift(constant.MakeInt64(1), token.SHL, 62)
+		n, bad := 0, ""
+		for _, b := range le.Blocks {
+			for _, in := range b.Instrs {
+				bo, ok := in.(*ssa.BinOp)
+				if !ok {
+					continue
+				}
+				var k *ssa.Const
+				if bo.X == ssa.Value(le.Params[0]) {
+					k, _ = bo.Y.(*ssa.Const)
+				} else if bo.Y == ssa.Value(le.Params[0]) {
+					k, _ = bo.X.(*ssa.Const)
+				}
+				if k == nil || k.Value == nil || k.Value.Kind() != constant.Int {
+					continue
+				}
+				switch bo.Op {
+				case token.LSS, token.GTR, token.LEQ, token.GEQ:
+				default:
+					continue
+				}
+				n++
+				abs := k.Value
+				if constant.Sign(abs) < 0 {
+					abs = constant.UnaryOp(token.SUB, abs, 0)
+				}
+				if constant.Compare(abs, token.LSS, lo) || constant.Compare(abs, token.GTR, hi) {
+					bad = fmt.Sprintf("%s: the caller's exponent offset is clamped at %s, outside [2^34, 2^62]", m.InstrPos(bo), k.Value.ExactString())
+				}
+			}
+		}
+		if n == 0 {
+			s.Note(R+"(iv)", "limitExp/clamp", m.Pos(le.Pos()), "no comparison of the argument with a constant found")
+		} else {
+			s.Check(bad == "", R+"(iv)", "limitExp/clamp", m.Pos(le.Pos()), fmt.Sprintf("%d clamp bound(s) within [2^34, 2^62]", n), bad+": a narrower clamp turns offsets that cancel against the other summand into wrong in-range results, a wider one lets the int64 sum wrap")
+		}
+	}
 	if nsites < 5 {
 		model.Fatal("EXP: only %d exponent sites found", nsites)
 	}
